@@ -449,6 +449,16 @@ class Machine:
                 except (ValueError, OverflowError):
                     return OPAQUE
             return OPAQUE
+        if name in ('cosf', 'sinf', 'sqrtf', 'fabsf', 'log2f', 'exp2f', 'ceilf', 'floorf', 'rintf'):
+            a = args[0]
+            if isinstance(a, float) or is_int(a):
+                import struct
+                try:
+                    v = float(MATH1[name[:-1]](float(a)))
+                    return struct.unpack('<f', struct.pack('<f', v))[0]
+                except (ValueError, OverflowError, struct.error):
+                    return OPAQUE
+            return OPAQUE
         if name == 'pow':
             if all(isinstance(a, float) for a in args):
                 try:
@@ -861,7 +871,15 @@ class Machine:
             if isinstance(v, float) and v == v and abs(v) < 2 ** 63:
                 return int(v) & mask(db)
             return OPAQUE
-        if op in ('fpext', 'fptrunc'):
+        if op == 'fptrunc':
+            if isinstance(v, float) and db == 32:
+                import struct
+                try:
+                    return struct.unpack('<f', struct.pack('<f', v))[0]
+                except (OverflowError, struct.error):
+                    return OPAQUE
+            return v if isinstance(v, float) else OPAQUE
+        if op == 'fpext':
             return v if isinstance(v, float) else OPAQUE
         raise Unsupported('cast ' + op)
 
